@@ -244,8 +244,9 @@ impl LeaderSelection {
         let hash_big = BigUint::from_bytes_be(hash.as_bytes());
         let total_weight_big = BigUint::from(total_weight);
         let ret_big = hash_big % total_weight_big;
-        // Assumes that `ret_big` does not exceed 64 bits due to the modulo operation with a 64 bits-capped value.
-        ret_big.to_u64_digits()[0]
+        // `ret_big` does not exceed 64 bits due to the modulo operation with a 64 bits-capped value.
+        // Zero has no digits.
+        ret_big.to_u64_digits().first().copied().unwrap_or(0)
     }
 }
 
